@@ -43,6 +43,8 @@ var c04Alpha = []string{
 	"#", "!", "{", "\\", "1e5", "a-b", "''", ":", "$", "nosuchfn",
 	// names that are operator names only in lower case
 	"AND", "Or", "DIV", "Mod",
+	// letters of Unicode that are no name characters of XML (feminine / masculine ordinal, micro sign)
+	"µ", "aº",
 }
 
 var c04LrAlpha = []string{
@@ -505,6 +507,7 @@ func joinToks(r *core.Rng, ts []string) string {
 var c04SpaceLike = []string{"\f", "\v", "\x00", "\x1f", "\x7f", "\u00a0", "\u0085", "\u1680", "\u2028", "\u3000", "\u200b", "\ufeff", " ", "\t", "\r", "\n", " \t\r\n "}
 
 var c04Hostile = []string{
+	"µ", "ª", "º", "../delay-µs > 5", "p:µ = 'x'", "a[º = 1]/b", "aµ", "a/ªb", "count(µ)",
 	"p : a", "p :a", "p: a", "p : *", "/p : a/ q :b", "a[p : k = 1]", "p\t:\na", "'\uf001'", "a = '\uf001'", "'\uf000\uf002'",
 	"", " ", "()", "( )", "(())", "1e5", "1E5", "1.5e3", ".5e1", "1e", "1e+5", "1.2.3", "1..2", "1.", ".", "..", "...", "....",
 	"'abc", "\"abc", "'a\"", "a'b'", "a[", "a]", "a[]", "a[[1]]", "a[1]]", "a/", "/", "//", "/a//b", "a//b", "//a", "@a", "a/@b",
